@@ -1,0 +1,32 @@
+//go:build verif
+
+// Contracts for the tvc verifier (/verif). Comment-only: with the `verif` tag off this file does not exist,
+// with it on it adds no code. Syntax: /verif/DESIGN.md appendix A.
+
+package eni
+
+//@ for C12
+
+//@ # ---- an interface read back from the metadata service (daemon start-up) carries the subnet and gateway the service
+//@ # ---- reports for THIS interface's MAC — per interface, not per node, cached key or first answer ----
+//@ ghost c12gw net.IP
+//@ ghost c12gwok bool = false
+//@ ghost c12cidr *net.IPNet
+//@ ghost c12cidrok bool = false
+//@ ghost c12gw6 net.IP
+//@ ghost c12gw6ok bool = false
+//@ ghost c12cidr6 *net.IPNet
+//@ ghost c12cidr6ok bool = false
+//@ func ENIMetadata.GetENIByMac
+//@   requires e != nil
+//@   at call metadata.GetENIGateway: ghost c12gw = result0
+//@   at call metadata.GetENIGateway: ghost c12gwok = (arg0 == mac)
+//@   at call metadata.GetVSwitchCIDR: ghost c12cidr = result0
+//@   at call metadata.GetVSwitchCIDR: ghost c12cidrok = (arg0 == mac)
+//@   at call metadata.GetENIV6Gateway: ghost c12gw6 = result0
+//@   at call metadata.GetENIV6Gateway: ghost c12gw6ok = (arg0 == mac)
+//@   at call metadata.GetVSwitchIPv6CIDR: ghost c12cidr6 = result0
+//@   at call metadata.GetVSwitchIPv6CIDR: ghost c12cidr6ok = (arg0 == mac)
+//@   ensures result1 == nil ==> result0 != nil && result0.MAC == mac
+//@   ensures result1 == nil ==> c12gwok && result0.GatewayIP.IPv4 == c12gw && c12cidrok && result0.VSwitchCIDR.IPv4 == c12cidr
+//@   ensures result1 == nil && e.ipv6 ==> c12gw6ok && result0.GatewayIP.IPv6 == c12gw6 && c12cidr6ok && result0.VSwitchCIDR.IPv6 == c12cidr6
